@@ -1,6 +1,6 @@
 (** Non-vacuity for C12: readers satisfying the hypotheses, and concrete runs of the model. *)
 From Coq Require Import NArith List Lia.
-From FF Require Import Lib.Word Gen.Consts_device_acpi_aml Aml.Stream Aml.Lex Aml.LexProofs Aml.Tree Aml.TreeSpec Aml.Parser Aml.ParserProofs Aml.ParserProofsTop Aml.ParserTotalBase Aml.ParserTotalFirst Aml.ParserTotalConn Aml.ParserTotalTop Aml.ParserTotalNonNamed Aml.ParserTotalCalls Aml.ParserTotalReloc.
+From FF Require Import Lib.Word Gen.Consts_device_acpi_aml Aml.Stream Aml.Lex Aml.LexProofs Aml.Tree Aml.TreeSpec Aml.Parser Aml.ParserProofs Aml.ParserProofsTop Aml.ParserTotalBase Aml.ParserTotalFirst Aml.ParserTotalConn Aml.ParserTotalTop Aml.ParserTotalNonNamed Aml.ParserTotalCalls Aml.ParserTotalReloc Aml.ParserTotalMerge.
 Import ListNotations.
 Local Open Scope N_scope.
 
@@ -167,4 +167,33 @@ Proof. destruct reloc_hyps_example as (s & g & H). exists s, g. exact H. Qed.
 (** a table whose device is declared with a two-segment path and relocated below \_SB_ parses (all passes) *)
 Example C12_relocation_runs :
   fst (fst (load [[0x5b; 0x82; 0x0b; 0x5c; 0x2e; 0x5f; 0x53; 0x42; 0x5f; 0x44; 0x45; 0x56; 0x32]])) = 0.
+Proof. vm_compute. reflexivity. Qed.
+
+(** the hypotheses of C12_parse_total_partial_nopanic_mergeScopeDirectives are satisfiable by a state that contains a
+    Scope directive of the current table (slot 2: Scope(_SB_) { Zero }, next to \_SB_ below the root), and on that state
+    the pass merges the directive: result ok, mergedScopes = 1 *)
+Example C12_merge_nonvacuous :
+  exists (s : pstate) (g : ghost) (x : N),
+    R (p_tree s) g /\
+    (forall i o, TreeSpec.get (p_tree s) i = Some o -> o_opcode o <> opFreed -> opInfo (o_infoIndex o) <> None) /\
+    pool_ok (p_tables s) (p_tree s) /\
+    glive g 0 /\ groot g 0 /\
+    (exists o, TreeSpec.get (p_tree s) 0 = Some o /\ o_opcode o = aml_pOpIntScopeBlock) /\
+    (forall d dobj, TreeSpec.get (p_tree s) d = Some dobj -> o_opcode dobj = aml_pOpScope -> o_tableHandle dobj = p_handle s ->
+       name_lead (o_name dobj) = false /\
+       exists n c no co tbl sl,
+         kids g d = [n; c] /\ kids g n = [] /\
+         TreeSpec.get (p_tree s) n = Some no /\ o_opcode no <> aml_pOpIntScopeBlock /\ o_opcode no <> aml_pOpScope /\
+         o_value no = Some (VBytes tbl sl) /\
+         (forall s0 bytes, p_tables s0 = p_tables s -> slice_bytes s0 tbl sl = Ok bytes -> good_path bytes) /\
+         TreeSpec.get (p_tree s) c = Some co /\ o_opcode co = aml_pOpIntScopeBlock) /\
+    glive g x /\
+    (exists dobj, TreeSpec.get (p_tree s) 2 = Some dobj /\ o_opcode dobj = aml_pOpScope /\ o_tableHandle dobj = p_handle s) /\
+    match mergeScopeDirectives 10 x s with Ok (r, s') => r = ROk /\ p_mergedScopes s' = 1 | _ => False end.
+Proof. exact merge_hyps_example. Qed.
+
+(** a table with Scope directives - absolute, relative, nested, one whose target does not exist yet - parses (all passes) *)
+Example C12_merge_runs :
+  fst (fst (load [[0x10; 0x0d; 0x5c; 0x5f; 0x53; 0x42; 0x5f; 0x08; 0x41; 0x42; 0x43; 0x44; 0x0a; 0x05;
+                   0x10; 0x0f; 0x5f; 0x53; 0x42; 0x5f; 0x10; 0x0a; 0x5e; 0x5f; 0x54; 0x5a; 0x5f; 0x08; 0x58; 0x58; 0x58; 0x58; 0x00]])) = 0.
 Proof. vm_compute. reflexivity. Qed.
